@@ -16,6 +16,10 @@ EXTENDS Integers, Sequences, FiniteSets, TLC, Json, IOUtils, SequencesExt
 Traces == ndJsonDeserialize(IOEnv.TRACE_FILE)
 Diag == "TRACE_DIAG" \in DOMAIN IOEnv
 KFOn(n) == ("KF_" \o n) \in DOMAIN IOEnv
+\* opt-in (env C16_STRICT_TOTAL): also judge announcements that are refused although the channel has room and a key
+\* waits - with the current protocol that key is never assigned.  Off by default: the rule looks at the protocol's
+\* own bookkeeping (what forwardChannel decided), not only at the assignment.
+Strict == "C16_STRICT_TOTAL" \in DOMAIN IOEnv
 
 VARIABLES tr, l,
           cS, cT, names,   \* counts and naming of the scenario (from the init event)
@@ -66,6 +70,9 @@ TStepOp ==
         \* known finding 2: handler with a wrong sourceKey (equal names, target side is the key side) takes a forward
         badkey  == /\ KFOn("C16_sourcekey_by_name") /\ e.op = "handoff" /\ e.enabled
                    /\ names = "same" /\ ~srcKey /\ e.k = e.hsrc
+        \* known finding 3 (strict mode only): announcement of a channel with room refused while a key waits
+        lost    == /\ Strict /\ e.op = "fwdcheck" /\ e.enabled /\ ~e.fwd /\ wait # {}
+                   /\ CountOfVal(asg, srcKey, e.v) + e.inflight < quota
         exc2    == IF stale THEN (e.v :> (Exc(excess, e.v) + 1)) @@ excess ELSE excess
         taint2  == tainted \/ badkey
     IN
@@ -75,6 +82,8 @@ TStepOp ==
     /\ UNCHANGED <<cS, cT, names>>
     /\ (stale => PrintT("KF " \o Traces[tr].plan \o " C16_stale_forward"))
     /\ (badkey => PrintT("KF " \o Traces[tr].plan \o " C16_sourcekey_by_name"))
+    /\ (lost => /\ KFOn("C16_forward_counted_twice")
+                 /\ PrintT("KF " \o Traces[tr].plan \o " C16_forward_counted_twice"))
     /\ \/ taint2
        \/ \* ---- the contract ----
           /\ asg \subseteq newAsg                                                       \* Stable
